@@ -25,7 +25,7 @@ func TestMain(m *testing.M) {
 
 // ---- backoff ---------------------------------------------------------------------------------
 
-type backoffCase struct {
+type vfBackoffCase struct {
 	Property string `json:"property,omitempty"`
 	Kind     string `json:"kind"`
 	Base     int64  `json:"base"`
@@ -35,7 +35,7 @@ type backoffCase struct {
 	Failure  string `json:"failure,omitempty"`
 }
 
-func checkBackoff(c *backoffCase) string {
+func vfCheckBackoff(c *vfBackoffCase) string {
 	prev := time.Duration(-1)
 	prevR := -1
 	for _, r := range c.Retries {
@@ -62,7 +62,7 @@ func checkBackoff(c *backoffCase) string {
 	return ""
 }
 
-func genBackoff(rt *rapid.T) *backoffCase {
+func vfGenBackoff(rt *rapid.T) *vfBackoffCase {
 	var max int64
 	switch rapid.IntRange(0, 5).Draw(rt, "maxclass") {
 	case 0:
@@ -83,13 +83,13 @@ func genBackoff(rt *rapid.T) *backoffCase {
 	case 1:
 		base = rapid.Int64Range(0, max).Draw(rt, "baseany")
 	case 2:
-		base = max - rapid.Int64Range(0, min64(max, 3000)).Draw(rt, "basenear")
+		base = max - rapid.Int64Range(0, vfMin64(max, 3000)).Draw(rt, "basenear")
 	case 3:
-		base = rapid.Int64Range(0, min64(max, 5)).Draw(rt, "basetiny")
+		base = rapid.Int64Range(0, vfMin64(max, 5)).Draw(rt, "basetiny")
 	default:
-		base = max/3*2 + rapid.Int64Range(0, min64(max/3, 7)).Draw(rt, "basetwothirds")
+		base = max/3*2 + rapid.Int64Range(0, vfMin64(max/3, 7)).Draw(rt, "basetwothirds")
 	}
-	c := &backoffCase{Kind: "backoff", Base: base, Max: max}
+	c := &vfBackoffCase{Kind: "backoff", Base: base, Max: max}
 	n := rapid.IntRange(1, 6).Draw(rt, "n")
 	r := 0
 	for i := 0; i < n; i++ {
@@ -106,7 +106,7 @@ func genBackoff(rt *rapid.T) *backoffCase {
 	return c
 }
 
-func min64(a, b int64) int64 {
+func vfMin64(a, b int64) int64 {
 	if a < b {
 		return a
 	}
@@ -115,7 +115,7 @@ func min64(a, b int64) int64 {
 
 // ---- GFE latency header ---------------------------------------------------------------------
 
-type t4t7Case struct {
+type vfT4t7Case struct {
 	Property string   `json:"property,omitempty"`
 	Kind     string   `json:"kind"`
 	Headers  []string `json:"headers"`
@@ -125,9 +125,9 @@ type t4t7Case struct {
 	Failure  string   `json:"failure,omitempty"`
 }
 
-// refT4T7 is written from the statement: the header list wins when it has entries, the first
+// vfRefT4T7 is written from the statement: the header list wins when it has entries, the first
 // gfet4t7 entry decides, malformed or absent is an error.
-func refT4T7(c *t4t7Case) (ms int64, ok bool) {
+func vfRefT4T7(c *vfT4t7Case) (ms int64, ok bool) {
 	list := c.Trailers
 	if c.HasH && len(c.Headers) > 0 {
 		list = c.Headers
@@ -172,7 +172,7 @@ func refT4T7(c *t4t7Case) (ms int64, ok bool) {
 	return 0, false
 }
 
-func checkT4T7(c *t4t7Case) string {
+func vfCheckT4T7(c *vfT4t7Case) string {
 	h, t := metadata.MD{}, metadata.MD{}
 	if c.HasH {
 		h["server-timing"] = c.Headers
@@ -190,7 +190,7 @@ func checkT4T7(c *t4t7Case) string {
 	if p != nil {
 		return fmt.Sprintf("parseT4T7Latency panicked on %q / %q: %v", c.Headers, c.Trailers, p)
 	}
-	ms, ok := refT4T7(c)
+	ms, ok := vfRefT4T7(c)
 	if ok != (err == nil) {
 		return fmt.Sprintf("parseT4T7Latency(headers=%q present=%v, trailers=%q present=%v): err=%v, the reference says ok=%v", c.Headers, c.HasH, c.Trailers, c.HasT, err, ok)
 	}
@@ -200,10 +200,10 @@ func checkT4T7(c *t4t7Case) string {
 	return ""
 }
 
-var entryPool = []string{"gfet4t7; dur=12", "gfet4t7; dur=0", "gfet4t7; dur=-3", "gfet4t7; dur=+7", "gfet4t7; dur=", "gfet4t7; dur= 5", "gfet4t7; dur=5 ", "gfet4t7; dur=1.5", "gfet4t7; dur=9223372036854775807",
+var vfEntryPool = []string{"gfet4t7; dur=12", "gfet4t7; dur=0", "gfet4t7; dur=-3", "gfet4t7; dur=+7", "gfet4t7; dur=", "gfet4t7; dur= 5", "gfet4t7; dur=5 ", "gfet4t7; dur=1.5", "gfet4t7; dur=9223372036854775807",
 	"gfet4t7; dur=9223372036854775808", "gfet4t7; dur=99999999999999999999999", "gfet4t7; dur=00000000000000000000000000", "gfet4t7; dur=-0000000000000000000000000007", "gfet4t7; dur=0x10", "gfet4t7; dur=1_000", "gfet4t7;dur=4", "GFET4T7; dur=4", "other; dur=9", "", "gfet4t7", "gfet4t7; dur=٣", "gfet4t7; dur=12, x"}
 
-func genT4T7(rt *rapid.T) *t4t7Case {
+func vfGenT4T7(rt *rapid.T) *vfT4t7Case {
 	list := func(label string) []string {
 		n := rapid.IntRange(0, 4).Draw(rt, label+"n")
 		var l []string
@@ -211,17 +211,17 @@ func genT4T7(rt *rapid.T) *t4t7Case {
 			if rapid.IntRange(0, 5).Draw(rt, label+"rand") == 0 {
 				l = append(l, "gfet4t7; dur="+rapid.StringMatching(`[-+]?[0-9]{0,20}[ a-z.]?`).Draw(rt, label+"v"))
 			} else {
-				l = append(l, rapid.SampledFrom(entryPool).Draw(rt, label+"e"))
+				l = append(l, rapid.SampledFrom(vfEntryPool).Draw(rt, label+"e"))
 			}
 		}
 		return l
 	}
-	return &t4t7Case{Kind: "t4t7", HasH: rapid.Bool().Draw(rt, "hasH"), Headers: list("h"), HasT: rapid.Bool().Draw(rt, "hasT"), Trailers: list("t")}
+	return &vfT4t7Case{Kind: "t4t7", HasH: rapid.Bool().Draw(rt, "hasH"), Headers: list("h"), HasT: rapid.Bool().Draw(rt, "hasT"), Trailers: list("t")}
 }
 
 // ---- payload -----------------------------------------------------------------------------------
 
-func checkPayload(n int) string {
+func vfCheckPayload(n int) string {
 	p, h, err := generatePayload(n)
 	if err != nil {
 		return fmt.Sprintf("generatePayload(%d): %v", n, err)
@@ -236,28 +236,28 @@ func checkPayload(n int) string {
 	return ""
 }
 
-type anyCase struct {
+type vfAnyCase struct {
 	Kind string `json:"kind"`
 }
 
 func TestC18Prober(t *testing.T) {
 	st := hx.For("C18")
 	if p := hx.ReplayIn(); p != "" {
-		var k anyCase
+		var k vfAnyCase
 		if err := hx.Load(p, &k); err != nil {
 			t.Fatal(err)
 		}
 		switch k.Kind {
 		case "backoff":
-			var c backoffCase
+			var c vfBackoffCase
 			hx.Load(p, &c)
-			if f := checkBackoff(&c); f != "" {
+			if f := vfCheckBackoff(&c); f != "" {
 				t.Fatalf("replay: %s", f)
 			}
 		case "t4t7":
-			var c t4t7Case
+			var c vfT4t7Case
 			hx.Load(p, &c)
-			if f := checkT4T7(&c); f != "" {
+			if f := vfCheckT4T7(&c); f != "" {
 				t.Fatalf("replay: %s", f)
 			}
 		default:
@@ -267,29 +267,29 @@ func TestC18Prober(t *testing.T) {
 		return
 	}
 	for _, p := range hx.Corpus("C18") {
-		var k anyCase
+		var k vfAnyCase
 		if hx.Load(p, &k) != nil {
 			continue
 		}
 		switch k.Kind {
 		case "backoff":
-			var c backoffCase
+			var c vfBackoffCase
 			hx.Load(p, &c)
-			if f := checkBackoff(&c); f != "" {
+			if f := vfCheckBackoff(&c); f != "" {
 				t.Fatalf("corpus %s: %s", p, f)
 			}
 			st.Label("corpus-replayed", 1)
 		case "t4t7":
-			var c t4t7Case
+			var c vfT4t7Case
 			hx.Load(p, &c)
-			if f := checkT4T7(&c); f != "" {
+			if f := vfCheckT4T7(&c); f != "" {
 				t.Fatalf("corpus %s: %s", p, f)
 			}
 			st.Label("corpus-replayed", 1)
 		}
 	}
 	for _, n := range []int{1, 2, 31, 32, 33, 1024, 65536, 1 << 20} {
-		if f := checkPayload(n); f != "" {
+		if f := vfCheckPayload(n); f != "" {
 			t.Fatal(f)
 		}
 		st.AddCases(1)
@@ -299,14 +299,14 @@ func TestC18Prober(t *testing.T) {
 		switch rapid.IntRange(0, 9).Draw(rt, "which") {
 		case 0:
 			n := rapid.IntRange(1, 1<<16).Draw(rt, "payload")
-			if f := checkPayload(n); f != "" {
+			if f := vfCheckPayload(n); f != "" {
 				hx.WriteReplay("C18", map[string]interface{}{"kind": "payload", "n": n, "failure": f})
 				rt.Fatalf("%s", f)
 			}
 			st.Case(1, map[string]int{"payload": 1}, false, nil)
 		case 1, 2, 3, 4:
-			c := genBackoff(rt)
-			if f := checkBackoff(c); f != "" {
+			c := vfGenBackoff(rt)
+			if f := vfCheckBackoff(c); f != "" {
 				st.Failed()
 				c.Failure, c.Property = f, "C18"
 				hx.WriteReplay("C18", c)
@@ -321,14 +321,14 @@ func TestC18Prober(t *testing.T) {
 			}
 			st.Case(len(c.Retries), l, len(c.Retries) >= 2 && c.Base > 0, c)
 		default:
-			c := genT4T7(rt)
-			if f := checkT4T7(c); f != "" {
+			c := vfGenT4T7(rt)
+			if f := vfCheckT4T7(c); f != "" {
 				st.Failed()
 				c.Failure, c.Property = f, "C18"
 				hx.WriteReplay("C18", c)
 				rt.Fatalf("%s", f)
 			}
-			_, ok := refT4T7(c)
+			_, ok := vfRefT4T7(c)
 			l := map[string]int{"t4t7": 1}
 			if ok {
 				l["t4t7-ok"] = 1
@@ -348,8 +348,8 @@ func FuzzT4T7(f *testing.F) {
 	f.Add("gfet4t7; dur=12", "x", true, true)
 	f.Add("gfet4t7; dur=-9223372036854775808", "gfet4t7; dur=1", true, false)
 	f.Fuzz(func(t *testing.T, a, b string, hh, ht bool) {
-		c := &t4t7Case{Kind: "t4t7", Headers: []string{a, b}, HasH: hh, Trailers: []string{b, a}, HasT: ht}
-		if f := checkT4T7(c); f != "" {
+		c := &vfT4t7Case{Kind: "t4t7", Headers: []string{a, b}, HasH: hh, Trailers: []string{b, a}, HasT: ht}
+		if f := vfCheckT4T7(c); f != "" {
 			c.Failure, c.Property = f, "C18"
 			hx.WriteReplay("C18", c)
 			t.Fatal(f)
